@@ -122,7 +122,11 @@ func Explore(i int, sc Scenario, b Budget) *Result {
 		phases = append(phases, phase{bd, false})
 	}
 	nDev := len(b.DevBounds)
+	skipDev, devCapped := false, ""
 	for pi, ph := range phases {
+		if ph.dev && skipDev {
+			continue
+		}
 		bound := ph.bound
 		bi := pi - nDev
 		dl := deadline
@@ -185,16 +189,16 @@ func Explore(i int, sc Scenario, b Budget) *Result {
 		}
 		if ph.dev {
 			if e.Capped != "" {
+				// a cut deviation bound never keeps the preemption bounds from running: the larger deviation
+				// bounds are skipped, the cut is reported
 				if pi < b.DevRequired {
-					res.Capped = fmt.Sprintf("deviation bound %d: %s", bound, e.Capped)
-					break
+					devCapped = fmt.Sprintf("deviation bound %d: %s", bound, e.Capped)
+				} else {
+					res.BestEffort = fmt.Sprintf("deviation bound %d (beyond the required ones): %s", bound, e.Capped)
 				}
-				res.BestEffort = fmt.Sprintf("deviation bound %d (beyond the required ones): %s", bound, e.Capped)
+				skipDev = true
 			} else if bound > res.DevDone {
 				res.DevDone = bound
-			}
-			if len(res.Viols) > 0 {
-				break
 			}
 			continue
 		}
@@ -211,6 +215,9 @@ func Explore(i int, sc Scenario, b Budget) *Result {
 		} else {
 			res.BoundDone = bound
 		}
+	}
+	if devCapped != "" && res.Capped == "" {
+		res.Capped = devCapped
 	}
 	if b.DPOR > 0 && res.Capped == "" && len(res.Viols) == 0 {
 		runDPOR(i, sc, b, res, body, check, nt, sigSeen)
